@@ -1420,6 +1420,23 @@ fn wake_send_waiters<T>(waiters: &mut LinkedList<SendWaitQueueEntry<T>>) {''',
 
         /// Creates a new oneshot channel which can be used to exchange values""",
      'expect': {'C12': ['C12.W'], 'C01': ['C01.I8']}},
+    # ---------------------------------------------------------------- found by the second-generation sweep
+    {'name': 'fixedbuf-pop-asserts-len-above-one', 'file': 'src/buffer/ring_buffer.rs',
+     'old': '            assert!(self.buffer.len() > 0);',
+     'new': '            assert!(self.buffer.len() > 1);',
+     'expect': {'C19': ['C19.R4']}},
+    {'name': 'mpmc-try-send-unbuffered-assert-above-one', 'file': 'src/channel/mpmc.rs',
+     'old': '            self.buffer.capacity() > 0,',
+     'new': '            self.buffer.capacity() > 1,',
+     'expect': {'C01': ['C01.P']}},
+    {'name': 'mpmc-try-send-closed-reports-full', 'file': 'src/channel/mpmc.rs',
+     'old': '            Err(TrySendError::Closed(value))',
+     'new': '            Err(TrySendError::Full(value))',
+     'expect': {'C11': ['C11.R8']}},
+    {'name': 'mpmc-try-receive-empty-reports-closed', 'file': 'src/channel/mpmc.rs',
+     'old': '        } else {\n            Err(TryReceiveError::Empty)',
+     'new': '        } else {\n            Err(TryReceiveError::Closed)',
+     'expect': {'C11': ['C11.R8']}},
 ]
 
 ALLP = ['C01','C02','C03','C04','C05','C06','C07','C08','C09','C10','C11','C12','C13','C14','C15','C17','C18','C19','C20']
